@@ -332,6 +332,9 @@ pub fn execute(ctx: &mut Ctx, eq: &mut EqTable, start: &Start, src: &mut dyn Sou
             op_index = trace.len();
             let info = w.check_state(ctx, eq)?;
             fin = (Some(w.m.diagram()), !w.m.setup && w.m.steps_made() == 0);
+            if ctx.record_turn_starts && fin.1 {
+                ctx.turn_starts.push((trace.len(), w.m.diagram()));
+            }
             if info.finished {
                 ctx.stats.inc("runs_ended_by_result");
                 break;
